@@ -114,14 +114,32 @@ func genC18(r *gen.Rand) *C18Case {
 		// random, the last one leaving the root (or, benign, staying inside)
 		hops := r.Range(2, 3)
 		names := []string{c18Root + "/h1.yaml", c18Root + "/sub/h2.yaml", c18Root + "/h3.yaml"}[:hops]
+		if r.Chance(0.35) {
+			// longer than what a single confined lookup follows (os.Root gives up after 8 links)
+			hops = r.Range(8, 12)
+			names = nil
+			for i := 1; i <= hops; i++ {
+				d := c18Root
+				if i%3 == 0 {
+					d = c18Root + "/sub"
+				}
+				names = append(names, fmt.Sprintf("%s/h%d.yaml", d, i))
+			}
+		}
 		final := target(c18Outside+"/d.yaml", c18Root+"/base.yaml")
+		if r.Chance(0.4) {
+			// the last hop leaves through a directory link in a non-final component
+			w.Links = append(w.Links, procsim.Link{Path: c18Root + "/dl", Target: target("../outside", "sub")})
+			final = c18Root + "/dl/" + target("d.yaml", "s.yaml")
+		}
+		spelling := r.Pick("relative", "relative", "mixed", "mixed", "absolute")
 		for i, n := range names {
 			next := final
 			if i+1 < len(names) {
 				next = names[i+1]
 			}
 			tgt := abs(next)
-			if r.Chance(0.5) {
+			if spelling == "relative" || (spelling == "mixed" && r.Chance(0.5)) {
 				rel, _ := filepath.Rel(filepath.Dir(n), next)
 				tgt = rel
 			}
